@@ -163,6 +163,122 @@ def run_row(ctx, v, rnd, ev=None, unit=UNIT, tag="row"):
                 ctx.fail("P:C15:active-sublist", case, ob["activelist"], v["active"])
 
 
+def observe_each(al, unit):
+    """one observation per alarm time (same shape as observe()), the membership in Alarms.active decided per position"""
+    times = al.times
+    try:
+        act = al.active
+    except Exception as e:   # noqa: BLE001
+        act = type(e).__name__
+    out, p = [], 0
+    for at in times:
+        ob = {"n": 1}
+        try:
+            ob["active"] = "true" if at.is_active() else "false"
+        except Exception as e:   # noqa: BLE001
+            ob["active"] = type(e).__name__
+        try:
+            ob["trigger"] = alpha_trigger(at.trigger, unit)
+        except Exception as e:   # noqa: BLE001
+            ob["trigger"] = ["err", type(e).__name__]
+        a = at.acknowledged
+        ob["ack"] = -1 if a is None else alpha_trigger(a, unit)[1]
+        if isinstance(act, str):
+            ob["activelist"] = act
+        elif p < len(act) and act[p].alarm is at.alarm and act[p].trigger == at.trigger:
+            ob["activelist"] = "true"
+            p += 1
+        else:
+            ob["activelist"] = "false"
+        out.append(ob)
+    if not isinstance(act, str) and p != len(act):
+        for ob in out:
+            ob["activelist"] = "odd"       # Alarms.active is not a sub-list of Alarms.times
+    return out
+
+
+def series_and_transitions(ctx, ev, rnd):
+    """rows for alarm times that are members of a SERIES (REPEAT with a positive or negative DURATION, the acknowledgement
+    falling inside the series) and for triggers inside the repeated / next to the skipped hour of a zone; one row per time,
+    the instant of each time taken from the component's own start (kind utc in the row: the model decides on instants)"""
+    unit = timedelta(minutes=1)
+    n = 40 if ctx.quick else 400
+    for i in range(n):
+        tzp.use(("zoneinfo", "pytz")[i % 2])
+        cls = (Event, Todo)[(i // 2) % 2]
+        s = rnd.randint(300, 900)
+        d, rep, q = rnd.choice([-10, 0, 15, -60]), rnd.randint(1, 3), rnd.choice([-20, 20, -60, 5])
+        exp = [s + d + k * q for k in range(rep + 1)]
+        lo, hi = min(exp) - 5, max(exp) + 5
+        def opt():
+            return -1 if rnd.random() < 0.3 else rnd.choice([rnd.randint(lo, hi), rnd.choice(exp), rnd.choice(exp) + 1, rnd.choice(exp) - 1])
+        ackA, ackC, snooze = opt(), opt(), (opt() if rnd.random() < 0.4 else -1)
+        c = cls()
+        c.start = inst(s, unit)
+        a = Alarm()
+        a.TRIGGER = timedelta(minutes=d)
+        a.REPEAT = rep
+        a.DURATION = timedelta(minutes=q)
+        if ackA != -1:
+            a.ACKNOWLEDGED = inst(ackA, unit)
+        c.add_component(a)
+        if snooze != -1 or ackC != -1:
+            c.add("X-MOZ-GENERATION", "1")
+            if snooze != -1:
+                c.X_MOZ_SNOOZE_TIME = inst(snooze, unit)
+            if ackC != -1:
+                c.X_MOZ_LASTACK = inst(ackC, unit)
+        route = ("api", "text", "twice")[i % 3]
+        if route == "text":
+            c = cls.from_ical(c.to_ical())
+        al = Alarms(c)
+        if route == "twice":
+            # the same VALARM object registered a second time: its times are listed twice, each judged on its own
+            al.add_alarm(c.subcomponents[0])
+            exp = exp + exp
+        obs = observe_each(al, unit)
+        ctx.evaluations += 1
+        ctx.case(("series", i, route), True)
+        case = {"series": {"start": s, "trigger": d, "repeat": rep, "duration": q, "ackA": ackA, "ackC": ackC, "snooze": snooze},
+                "cls": cls.__name__, "route": route, "provider": tzp.name}
+        if len(obs) != len(exp):
+            ctx.fail("P:C15:times", case, len(obs), len(exp))
+            continue
+        for t, ob in zip(exp, obs):
+            ev.append({"r": {"kind": "utc", "t": t, "ackA": ackA, "ackC": ackC, "snooze": snooze, "local": False}, "ob": ob, "case": {**case, "time": t}})
+    # the repeated hour (2024-11-03) and the hour after the skipped one (2024-03-10) in America/New_York
+    for i in range(4 * n):
+        tzp.use(("zoneinfo", "pytz")[(i // 2) % 2])
+        cls = (Event, Todo)[(i // 4) % 2]
+        # three of four rows in the two hours 01:00-02:00 EDT / 01:00-02:00 EST (05:00Z-07:00Z), the rest around the skipped hour
+        base = datetime(2024, 11, 3, 5, 0, tzinfo=UTC) if i % 4 else datetime(2024, 3, 10, 6, 0, tzinfo=UTC)
+        st = (base + timedelta(minutes=rnd.randint(0, 119))).astimezone(tzp.timezone("America/New_York"))
+        c = cls()
+        c.start = st
+        a = Alarm()
+        a.TRIGGER = timedelta(0)
+        c.add_component(a)
+        c.add("X-MOZ-GENERATION", "1")
+        route = ("api", "text")[i % 2]
+        if route == "text":
+            c = cls.from_ical(c.to_ical())       # (the wire carries no fold: the component's own start is the reference)
+        t = alpha_trigger(c.start, unit)[1]
+        snooze = t + rnd.choice([-50, -40, -30, -20, -10, 10, 20, 30, 40, 50, 70, 100])
+        ackC = rnd.choice([-1, t - 5, t + 15, snooze + 5, snooze - 5])
+        c.X_MOZ_SNOOZE_TIME = inst(snooze, unit)
+        if ackC != -1:
+            c.X_MOZ_LASTACK = inst(ackC, unit)
+        al = Alarms(c)
+        obs = observe_each(al, unit)
+        ctx.evaluations += 1
+        ctx.case(("transition", i, route), True)
+        case = {"transition": {"start": repr(c.start), "snooze": snooze - t, "ack": ackC - t if ackC != -1 else None}, "cls": cls.__name__, "route": route, "provider": tzp.name}
+        if len(obs) != 1:
+            ctx.fail("P:C15:times", case, len(obs), 1)
+            continue
+        ev.append({"r": {"kind": "utc", "t": t, "ackA": -1, "ackC": ackC, "snooze": snooze, "local": False}, "ob": obs[0], "case": case})
+
+
 def run(ctx: Ctx):
     rnd = random.Random(ctx.seed)
     r0 = ctx.mc("MC_Alarms15", cfg_text(spec="Spec", constants={"Ticks": {0, 1, 2}, "Old": True, "ZoneOff": 1},
@@ -207,6 +323,7 @@ def run(ctx: Ctx):
                   "snooze": opt(), "local": rnd.random() < 0.5}
             run_row(ctx, {"r": rr}, rnd, ev=ev, unit=timedelta(minutes=1))
             ctx.case(("rnd", repr(rr)), True)
+        series_and_transitions(ctx, ev, rnd)
     finally:
         tzp.use_default()
     events = [{"r": e["r"], "ob": {k: (x if not isinstance(x, list) else x) for k, x in e["ob"].items()}} for e in ev]
